@@ -2,7 +2,7 @@
 From SPV Require Export CorrDefs.CorrSerial.
 
 Inductive via :=
-| ViaApi (tr : transport)            (* to_dict/from_dict, dumps_json/loads_json, dumps_yaml/loads_yaml *)
+| ViaApi (name : string)             (* "dict": to_dict/from_dict; "json" / "yaml": dumps_x/loads_x, codec from API_TABLE *)
 | ViaFile (suffix : string)          (* save(path) / load(path): codec chosen by the suffix table *)
 | ViaRaw (p : prim) (must : bool).   (* from_dict on a hand-made raw dict; must = it is a lenient encoding of c_val *)
 
@@ -17,7 +17,10 @@ Record case := mkcase {
 Definition model_prim (c : case) : res prim :=
   match c.(c_via) with
   | ViaRaw p _ => Ok p
-  | ViaApi tr => run_transport tr (to_dict_c c.(c_val))
+  | ViaApi name => match transport_of_api name with
+                   | Some tr => run_transport tr (to_dict_c c.(c_val))
+                   | None => Err OutOfFuel
+                   end
   | ViaFile s => match transport_of_suffix s with
                  | Some tr => run_transport tr (to_dict_c c.(c_val))
                  | None => Err (Raise "RuntimeError")
